@@ -322,7 +322,23 @@ pub fn run(ctx: &Ctx) -> i32 {
             }
         }
     }
-    col.layer("b-token-mutants", n_b, true, json!({}));
+    // the same mutants written over several lines: CRLF, CR alone and LF between all tokens (an error location must stay
+    // inside the text whatever the line ends are)
+    for s in &corpus {
+        let toks = corpus_tokens(s);
+        for i in 0..toks.len() {
+            let mut del = toks.clone();
+            del.remove(i);
+            let mut rp = toks.clone();
+            rp[i] = ")".to_string();
+            for (name, sep) in [("crlf", "\r\n"), ("cr", "\r"), ("lf", "\n"), ("crlf-blank", " \r\n ")] {
+                record(&col, &del.join(sep), &format!("token-delete-{}", name), i as u64, true);
+                record(&col, &rp.join(sep), &format!("token-replace-{}", name), i as u64, true);
+                n_b += 2;
+            }
+        }
+    }
+    col.layer("b-token-mutants", n_b, true, json!({"line_ends": ["blank", "CRLF", "CR", "LF", "blank CRLF blank"]}));
     col.sample(json!({"layer": "token-swap", "text": "SELECT k COUNT , ( * ) FROM t GROUP BY k"}));
     // (c) token soups
     let maxlen = ctx.tier.pick(3, 4) as u32;
